@@ -114,6 +114,69 @@ def call_corr(ctx, items):
             ctx.traces += 1
 
 
+def tokens_to_text(out):
+    """text of the token list the model printed (numbers carry bit patterns: f<bits>)"""
+    import re
+    import struct
+
+    def bits(m):
+        return repr(struct.unpack("<d", struct.pack("<Q", int(m.group(1))))[0])
+    parts = []
+    for x in out.split(" "):
+        f = x.split(":")
+        kind = f[0]
+        if kind == "EOF":
+            continue
+        t = sx.unhex(f[1])
+        if kind in ("FLOAT", "COMPLEX"):
+            t = re.sub(r"f(\d+)", bits, t)
+        parts.append("\n" if kind == "NEWLINE" else t if kind == "TAB" else t + " ")
+    return "".join(parts)
+
+
+def substp_corr(ctx, cases):
+    """the model's substituted script (substPScript, the object of the script-level theorems) against the
+    implementation: the text the model writes and the text the harness substituted by hand load to the same
+    program, and — inside the fragment the theorem covers — calling the template gives that program"""
+    lines, keep = [], []
+    for text, vals, subst_text in cases:
+        try:
+            lines.append("SUBSTP\t" + sx.hexs(text) + "\t" + sx.hexs(enc.enc_kw(vals)))
+            keep.append((text, vals, subst_text))
+        except enc.Unsupported:
+            ctx.ood += 1
+    outs = core.model_batch(lines)
+    for (text, vals, subst_text), o in zip(keep, outs):
+        if o.startswith("(err") or o.startswith("bad"):
+            ctx.disagree("SUBSTP: model answers %s on a template the implementation loads" % o[:60],
+                         {"kind": "correspondence", "cmd": "SUBSTP", "text": text, "kwargs": repr(vals)})
+            continue
+        flag, _, toks = o.partition(" ")
+        mtext = tokens_to_text(toks)
+        ia, oa = core.impl_canon_loads(mtext)
+        ib, ob = core.impl_canon_loads(subst_text)
+        if ib[0] != "prog":
+            ctx.ood += 1
+            continue
+        if ia[0] != "prog":
+            ctx.disagree("SUBSTP: the model's substituted script is refused (%s %r), the hand-substituted one loads" % (ia[1:3], oa),
+                         {"kind": "correspondence", "cmd": "SUBSTP", "text": text, "model_text": mtext, "subst_text": subst_text})
+            continue
+        d = common.cmp_impl(ia[1], ib[1], check_vars=True, loose_kinds=False)
+        if d:
+            ctx.disagree("SUBSTP: model's substituted script vs hand-substituted text: " + "; ".join(d[:3]),
+                         {"kind": "correspondence", "cmd": "SUBSTP", "text": text, "model_text": mtext, "subst_text": subst_text})
+            continue
+        ctx.count("substituted-script:" + flag)
+        if flag == "covered":
+            msg = oracles.o_template_call(text, vals, mtext)
+            if msg:
+                ctx.violation("template inside the fragment of C04_script_instantiation: " + msg,
+                              {"kind": "template_call", "text": text, "kwargs": vals, "subst_text": mtext})
+                continue
+        ctx.traces += 1
+
+
 def enc_text(obj):
     import blackbird
     with core.quiet():
@@ -129,12 +192,16 @@ def run(ctx):
                 "loop bodies; 3 (quick) / 5 (thorough) value assignments each (exact-friendly dyadic and generic "
                 "doubles), the later ones applied to one and the same loaded template object that was already instantiated; "
                 "oracle: loads(t)(**v) vs loads(t with every {p} replaced by its parenthesised value), "
-                "parameters / is_template / missing value; model instantiate vs __call__; non-trivial = at least two "
+                "parameters / is_template / missing value; model instantiate vs __call__; a second stream of templates inside "
+                "the fragment of C04_script_instantiation (parameters in statements and loop bodies only); SUBSTP: the "
+                "model's substituted script (substPScript) printed as text loads, in the implementation, to the program "
+                "the hand-substituted text loads to, and inside the fragment the call gives that program; non-trivial = at least two "
                 "parameter occurrences; distinct by (script text, values)")
     n = ctx.n(250, 4000)
     reps = ctx.n(3, 5)
     corr = []
     texts = []
+    substp = []
     for i in range(n):
         script, info, scope = gen.gen_template(ctx.rng, {"depth": 2, "max_items": 8, "array_args": True})
         text = gen.render(script)
@@ -170,11 +237,35 @@ def run(ctx):
                               {"kind": "template", "script": script, "info": info, "vals": vals, "arrays": arrays,
                                "text": text, "subst_text": subst_text})
                 break
+            if r == 0 and not arrays:
+                substp.append((text, dict(vals), subst_text))
             if r == 0:
                 ic, obj = core.impl_canon_loads(text)
                 if ic[0] == "prog":
                     kwargs = dict(vals)
                     kwargs.update(arrays)
                     corr.append((obj, kwargs))
+    # templates inside the fragment of the script-level theorem: parameters in statements and loop
+    # bodies only, next to parameter-free declarations
+    for i in range(ctx.n(150, 2500)):
+        script, info, scope = gen.gen_template(ctx.rng, {"depth": 2, "max_items": 8, "fragment": True})
+        for _try in range(20):
+            vals, arrays = gen.gen_param_values(ctx.rng, info, exact_friendly=(i % 2 == 0))
+            if gen.values_in_domain(script, vals):
+                break
+        else:
+            ctx.count("no-values-in-domain")
+            continue
+        msg, text, subst_text = check_template(script, info, vals, arrays)
+        ctx.case((text, sorted(vals.items())), nontrivial=text.count("{") >= 2)
+        ctx.count("fragment-template")
+        texts.append(text)
+        if msg:
+            ctx.violation("template instantiation: " + msg,
+                          {"kind": "template", "script": script, "info": info, "vals": vals, "arrays": arrays,
+                           "text": text, "subst_text": subst_text})
+            continue
+        substp.append((text, dict(vals), subst_text))
     common.loads_corr(ctx, texts, "LOADS(template)")
     call_corr(ctx, corr)
+    substp_corr(ctx, substp)
